@@ -174,22 +174,25 @@ TokenOK(t) ==
 KeywordSpellings == {"asm", "auto", "break", "case", "const", "continue", "default", "do", "else", "enum", "extern", "for",
                      "goto", "if", "inline", "register", "restrict", "return", "sizeof", "static", "struct", "switch",
                      "typedef", "union", "volatile", "while", "void"}
-RegularTypes(s) ==
-  IF s \in KeywordSpellings THEN {"eKeyword"} \cup (IF s \in {"auto", "void"} THEN {"eType"} ELSE {})
-  ELSE IF s \in {"true", "false"} THEN {"eBoolean"}
-  ELSE IF s \in {"+", "-", "*", "/", "%", ">>", "<<"} THEN {"eArithmeticalOp"}
-  ELSE IF s \in {"=", "+=", "-=", "*=", "/=", "%=", "&=", "|=", "^=", "<<=", ">>="} THEN {"eAssignmentOp"}
-  ELSE IF s \in {"&", "|", "^", "~"} THEN {"eBitOp"}
-  ELSE IF s \in {"&&", "||", "!"} THEN {"eLogicalOp"}
-  ELSE IF s \in {"==", "!=", "<=", ">=", "<=>"} THEN {"eComparisonOp"}
-  ELSE IF s \in {"<", ">"} THEN {"eComparisonOp", "eBracket"}
-  ELSE IF s \in {"{", "}"} THEN {"eBracket"}
-  ELSE IF s \in {"[", "]"} THEN {"eExtendedOp", "eLambda"}
-  ELSE IF s \in {",", "?", ":", "(", ")"} THEN {"eExtendedOp"}
-  ELSE IF s \in {"++", "--"} THEN {"eIncDecOp"}
-  ELSE IF s = "..." THEN {"eEllipsis"}
-  ELSE {}                                   \* no fixed spelling: nothing to say
-Regular(t) == RegularTypes(t.s) = {} \/ t.type \in RegularTypes(t.s)
+FixedSpellings == KeywordSpellings \cup {"true", "false", "+", "-", "*", "/", "%", ">>", "<<", "=", "+=", "-=", "*=", "/=", "%=", "&=", "|=",
+                    "^=", "<<=", ">>=", "&", "|", "^", "~", "&&", "||", "!", "==", "!=", "<=", ">=", "<=>", "<", ">", "{", "}", "[", "]",
+                    ",", "?", ":", "(", ")", "++", "--", "..."}
+RegularTypes ==
+  [s \in FixedSpellings |->
+     IF s \in KeywordSpellings THEN {"eKeyword"} \cup (IF s \in {"auto", "void"} THEN {"eType"} ELSE {})
+     ELSE IF s \in {"true", "false"} THEN {"eBoolean"}
+     ELSE IF s \in {"+", "-", "*", "/", "%", ">>", "<<"} THEN {"eArithmeticalOp"}
+     ELSE IF s \in {"=", "+=", "-=", "*=", "/=", "%=", "&=", "|=", "^=", "<<=", ">>="} THEN {"eAssignmentOp"}
+     ELSE IF s \in {"&", "|", "^", "~"} THEN {"eBitOp"}
+     ELSE IF s \in {"&&", "||", "!"} THEN {"eLogicalOp"}
+     ELSE IF s \in {"==", "!=", "<=", ">=", "<=>"} THEN {"eComparisonOp"}
+     ELSE IF s \in {"<", ">"} THEN {"eComparisonOp", "eBracket"}
+     ELSE IF s \in {"{", "}"} THEN {"eBracket"}
+     ELSE IF s \in {"[", "]"} THEN {"eExtendedOp", "eLambda"}
+     ELSE IF s \in {",", "?", ":", "(", ")"} THEN {"eExtendedOp"}
+     ELSE IF s \in {"++", "--"} THEN {"eIncDecOp"}
+     ELSE {"eEllipsis"}]
+Regular(t) == t.s \notin FixedSpellings \/ t.type \in RegularTypes[t.s]      \* no fixed spelling: nothing to say
 
 -----------------------------------------------------------------------------
 (* Matching.                                                                *)
@@ -286,6 +289,13 @@ Progress(p, toks, v, i, j) ==
                IF has /\ ElemMatches(e, toks[j], v) THEN 1 + Progress(p, toks, v, i + 1, j + 1)
                ELSE 1 + Progress(p, toks, v, i + 1, j)
           ELSE IF has /\ ElemMatches(e, toks[j], v) THEN 1 + Progress(p, toks, v, i + 1, j + 1) ELSE 0
+
+\* does the greedy run get past the first element (= Progress >= 1) on a non-empty token list
+PassesFirst(p, toks, v) ==
+  /\ p # <<>> /\ toks # <<>>
+  /\ IF p[1].k = "neg" THEN toks[1].s # p[1].lit
+     ELSE IF p[1].k = "alt" /\ p[1].opt THEN TRUE
+     ELSE ElemMatches(p[1], toks[1], v)
 
 (* findmatch(tok = toks[start+1], pattern, end): the first position in      *)
 (* [start, end) (0-based; end = -1: to the end of the list) at which the     *)
